@@ -21,6 +21,10 @@ def known_class(p, T):
     """Known_import_alias: the symbol is made visible under another name by `.import x as y`"""
     if isinstance(T, navgen.Def) and any(o.role == "imp_alias" and o.d is T for o in p.occs):
         return "Known_import_alias"
+    # a definition of the same name exists only in an untaken branch: the analysed run binds occurrences to it
+    dead = {d.name for d in p.defs if not d.assembled and d.kind != "param"}
+    if isinstance(T, navgen.Def) and T.name in dead:
+        return "Known_greedy_untaken_definition"
     return None
 
 
@@ -52,6 +56,10 @@ def other_scope_names(p, T):
             if d.block is not None:
                 ok = False
                 break
+            # no occurrence of T inside that block either (an imported T is used far from where it is defined)
+            if any(o.truth is T and o.stmt is not None and any(a is d.scope for a in o.stmt.scope.ancestors()) for o in p.occs):
+                ok = False
+                break
         if ok and not any(v == name for (v, _) in p.aliases):
             out.append(name)
     return out
@@ -74,7 +82,7 @@ def rename_trial(chk, p, sess, probe, o, T, new_name, base_build, stats, kind, t
 
     def fail(what, **kw):
         k = klass
-        if k is not None and tie is not None:
+        if k == "Known_import_alias" and tie is not None:
             # the class is decided by the predicate of the guarded theorem (extracted from Coq), evaluated on the real
             # table and Analysis; the generator-level predicate must agree, else the failure is reported unclassified
             known, _ = tie.classify(o, mid)
@@ -149,7 +157,7 @@ def run(chk):
     probe = Proc([common.build_probe()])
     mos = common.build_mos()
     thorough = chk.tier == "thorough"
-    n = 150 if thorough else 36
+    n = 120 if thorough else 36
     per_program = 30 if thorough else 12
     workdir = os.path.join(common.CACHE, "work")
     os.makedirs(workdir, exist_ok=True)
@@ -186,7 +194,7 @@ def run(chk):
                     stats["discarded"] += 1
                     continue
                 tie.load(p)
-                cands = [o for o in p.occs if isinstance(o.truth, navgen.Def) or o.role in ("superseg", "ns_def")]
+                cands = [o for o in p.occs if isinstance(o.truth, navgen.Def) or o.role in ("superseg", "ns_def", "anon_label", "brace")]
                 sub.shuffle(cands)
                 # every role at least once, then random
                 picked, roles = [], set()
@@ -210,6 +218,10 @@ def run(chk):
                                       {"files": files, "position": [o.file, o.line, mid]})
                     if offer is None:
                         stats["not_offered"] += 1
+                        continue
+                    if o.role in ("anon_label", "brace"):
+                        chk.oracle_failure(None, "a rename is offered at %s:%d:%d on `%s`, which is no identifier (range %s)" % (
+                            o.file, o.line, o.col, o.text, offer), {"files": files, "occurrence": [o.file, o.line, o.col, o.text, o.role]})
                         continue
                     stats["offered"] += 1
                     stats["by_role"][o.role] = stats["by_role"].get(o.role, 0) + 1
@@ -258,6 +270,17 @@ def run_corpus_case(chk, name, case, mos, probe, workdir, stats):
     files = case["files"]
     base, errs = build(probe, files)
     with lsp_nav.NavSession(mos, files, workdir) as sess:
+        if "no_rename_at" in case:
+            for (f, line, col) in case["no_rename_at"]:
+                offer = sess.prepare_rename(f, line, col)
+                edits = sess.rename(f, line, col, "foo")
+                sess.s.did_change("main.asm", files["main.asm"])
+                sess.s.barrier()
+                stats["renames"] += 1
+                if offer is not None or edits:
+                    chk.oracle_failure(case.get("class"), "corpus %s (%s): rename offered / performed at %s:%d:%d where no identifier is: offer %s edits %s" % (
+                        name, case.get("what", ""), f, line, col, offer, edits), {"corpus": name, "files": files})
+            return
         f, line, col, new = case["rename"]
         edits = sess.rename(f, line, col, new)
         stats["renames"] += 1
